@@ -136,6 +136,11 @@ def mut_cases(draw, tier="quick"):
         muts.append((draw(st.integers(0, 10 ** 6)), draw(st.sampled_from(["zero", "one", "max", "max-1", "plus1", "minus1", "other", "half", "x256", "bit"])),
                      draw(st.integers(0, 63))))
     loop = draw(st.sampled_from([None, None, None, "self", "parent", "root", "sibling_dir_twice"]))
+    if draw(st.sampled_from([False, False, False, False, True])):
+        # valid image, directory index with many entries of varied name lengths (12 + len bytes each)
+        lens = [draw(st.integers(100, 132))] + [draw(st.integers(4, 24)) for _ in range(draw(st.integers(20, 200)))]
+        return dict(base=base, muts=[], loop=None, idx_lens=lens, tool=draw(st.sampled_from(["list", "describe", "stat", "sqfs2tar", "diff", "unpack"])),
+                    path=draw(st.sampled_from([b"/", b"/idx", b"/idx"])))
     focus = draw(st.sampled_from([False, False, True]))
     if focus:
         # one field of a regular file's inode (size, block words, fragment location, start) changed, then the data of exactly that file is read
@@ -158,6 +163,14 @@ def build_mutated(case):
         for c in root["children"]:
             if c.get("name") == b"sub":
                 c["id"] = "sub"
+    if case.get("idx_lens"):
+        # a directory with one header (hence one index entry) per entry and index names of chosen lengths: the readers size the
+        # index buffer of the extended directory inode while they read it
+        kids = []
+        for i, ln in enumerate(case["idx_lens"]):
+            nm = (b"%04d" % i).ljust(ln, b"i")[:max(4, ln)]
+            kids.append(dict(type="file", name=nm, data=b"", frag=False))
+        root["children"].append(dict(type="dir", name=b"idx", children=kids, index=True, ext=True, run_max=1))
     lp = case.get("loop")
     sub = next(c for c in root["children"] if c.get("name") == b"sub")
     if lp == "self":
